@@ -1,9 +1,11 @@
 #!/bin/bash
-# run every quick check for the given seeds; print one line per run (used before committing)
+# run every quick check for the given seeds; one line per run (used before committing).
+# EVIDENCE=1 lets the runs rewrite evidence/<ID>.json (only meaningful on the unchanged tree).
 cd /verif
+if [ "${EVIDENCE:-0}" = 1 ]; then ev=(); else ev=(VERIF_NO_EVIDENCE=1); fi
 for s in "$@"; do
   for id in C01 C02 C03 C04 C05 C06 C07 C08 C09 C10 C11 C12 C13 C14 C15 C16 C17 C18 C19 C20; do
-    out=$(VERIF_SEED=$s VERIF_NO_EVIDENCE=${NOEV:-1} ./check run $id quick 2>&1); rc=$?
+    out=$(env VERIF_SEED=$s "${ev[@]}" ./check run $id quick 2>&1); rc=$?
     echo "seed=$s $id rc=$rc $(echo "$out" | grep -E '^(OK|VIOLATION)' | head -1 | cut -c1-160)"
   done
 done
